@@ -341,6 +341,13 @@ func (m *WireMonitor) serverFrame(wl *wireLink, e *TapEvent, f *tunnelpb.ServerT
 			// produces by returning nil after a failed SendMsg; not judged)
 		}
 	case *tunnelpb.ServerToClient_WindowUpdate:
+		// the library returns credit from inside the handler's RecvMsg, so a
+		// window update after the close of a handler-ended stream is legal
+		// only while some (misbehaving, but scripted) second handler actor is
+		// still inside a receive
+		if handlerEnded && !m.w.handlerRecvOpen(st.tag) {
+			m.v("C13", "frame-after-close", "link %d stream %d: window update emitted after the close frame of a stream its handler ended", wl.link.ID, id)
+		}
 		if st.rev == tunnelpb.ProtocolRevision_REVISION_ZERO {
 			m.v("C11", "window-update-on-revision-zero", "link %d stream %d: server emitted window_update on a revision-zero stream", wl.link.ID, id)
 		}
@@ -377,6 +384,23 @@ func (w *World) handlerReturnedBefore(tag string, seq int64) bool {
 	defer l.mu.Unlock()
 	for _, r := range l.recs {
 		if r.RPC == tag && r.Side == "handler" && r.K == "ret" && r.RetSeq != 0 && r.RetSeq < seq {
+			return true
+		}
+	}
+	return false
+}
+
+// handlerRecvOpen reports whether a handler-side receive of the tagged RPC has
+// been called and has not returned yet.
+func (w *World) handlerRecvOpen(tag string) bool {
+	if tag == "" {
+		return true
+	}
+	l := w.Env.Log
+	l.mu.Lock()
+	defer l.mu.Unlock()
+	for _, r := range l.recs {
+		if r.RPC == tag && r.Side == "handler" && r.K == "recv" && r.RetSeq == 0 {
 			return true
 		}
 	}
